@@ -41,6 +41,13 @@ pub fn export_nodes(ddnnf: &Ddnnf) -> String {
     s
 }
 
+/// what the implementation claims about an exported array: it is well-formed (the driver decides that
+/// with `wfB` + `litUniqueB`; truth-table determinism only for n <= 12) and has this count
+pub fn circuit_line(d: &Ddnnf) -> String {
+    let wf = if d.number_of_variables <= 12 { "true" } else { "struct" };
+    format!("circuit nodes={} wf={} count={}", d.nodes.len(), wf, d.rc())
+}
+
 pub fn fmt_ints(xs: &[i32]) -> String { xs.iter().map(|x| x.to_string()).collect::<Vec<_>>().join(" ") }
 pub fn fmt_cfgs(cs: &[Vec<i32>]) -> String {
     cs.iter().map(|c| { let mut c = c.clone(); c.sort_by_key(|l| l.abs()); fmt_ints(&c) }).collect::<Vec<_>>().join(";")
